@@ -60,14 +60,19 @@ seq_t dtw_warping_paths{{ suffix }}{{ suffix2 }}(seq_t *wps,
 
     {%- if "affinity" not in suffix %}
     if (settings->use_pruning || settings->only_ub) {
+        {%- if "euclidean" == inner_dist %}
         if (ndim == 1) {
             p.max_dist = ub_euclidean(s1, l1, s2, l2);
         } else {
             p.max_dist = ub_euclidean_ndim(s1, l1, s2, l2, ndim);
         }
-        {%- if "euclidean" == inner_dist %}
         {%- else %}
-        p.max_dist = pow(p.max_dist, 2);
+        // Bound in the internal representation (sum of squares), not pow(sqrt(sum), 2)
+        if (ndim == 1) {
+            p.max_dist = euclidean_distance_sq(s1, l1, s2, l2);
+        } else {
+            p.max_dist = euclidean_distance_ndim_sq(s1, l1, s2, l2, ndim);
+        }
         {%- endif %}
         if (settings->only_ub) {
             if (keep_int_repr) {
